@@ -10,6 +10,7 @@ import MdwModel.Driver.C11
 import MdwModel.Driver.C03
 import MdwModel.Driver.C02
 import MdwModel.Driver.C18
+import MdwModel.Driver.C14
 import MdwModel.Driver.LiveProps
 import MdwModel.Model.Records
 import Std.Data.HashMap
@@ -48,6 +49,7 @@ def dispatchPure (prop : String) (kv : List (String × String)) : Res :=
 def dispatch (prop : String) (kv : List (String × String)) : IO Res := do
   match prop with
   | "C01" => C01.run kv
+  | "C14" => C14.run kv
   | "C19" => C19.run kv
   | "C11" => C11.run kv
   | "C03" => C03.run kv
@@ -61,6 +63,12 @@ def dispatch (prop : String) (kv : List (String × String)) : IO Res := do
     | some "pctx" => return LiveProps.runPctx kv
     | some "dump" => LiveProps.runLive04 kv
     | _ => return .bad "C04 kind"
+  | "C06" => match get kv "kind" with
+    | some "dump" => LiveProps.runLive06 kv
+    | _ => return dispatchPure prop kv
+  | "C20" => match get kv "kind" with
+    | some "dump" => LiveProps.runLive20 kv
+    | _ => return dispatchPure prop kv
   | "C07" => match get kv "kind" with
     | some "dump" => LiveProps.runLive07 kv
     | _ => return .bad "C07 kind"
